@@ -950,6 +950,12 @@ func (p *Parser) Parse() (Statement, error) {
 	}
 
 	// Check syntax
+	if nexp, ok := expr.(*NameExpr); ok {
+		// The whole condition is a field name defined in the select statement
+		if fexpr, have := checkCtx.GetNamedExpr(nexp.Data); have {
+			expr = &FieldReferenceExpr{Name: nexp, FieldExpr: fexpr}
+		}
+	}
 	err = expr.Check(checkCtx)
 	if err != nil {
 		return nil, err
